@@ -34,6 +34,20 @@ type Clause struct {
 	err   error
 }
 
+// internal clauses talk about the function's own call trace / ghost state and
+// are proved of the body but never assumed at call sites.
+func (cl *Clause) internal() bool {
+	if strings.HasPrefix(cl.Label, "local-") {
+		return true
+	}
+	for _, k := range []string{"ncalls(", "callarg[", "callret[", "pendingErr(", "pendingFailed(", "deferActive(", "deferVal["} {
+		if strings.Contains(cl.Text, k) {
+			return true
+		}
+	}
+	return false
+}
+
 type Contract struct {
 	Key         string // funcName
 	Pkg         *packages.Package
